@@ -78,6 +78,8 @@ def untag(key, v):
         return v[1]
     if t == "numstr":
         return str(v[1])
+    if t == "frac":
+        return v[1] + 0.5
     if t == "loom":
         return "node%d.x" % v[1]
     if t == "obj":
@@ -169,7 +171,7 @@ def corrupt(seed, c):
             elif kind == "json":
                 text = json.dumps(meta_json(meta), indent=1).encode()
                 js = {"truncated": text[:len(text) // 2], "garbage": b"\x7fELF\x01\x02 not json {{{ ]",
-                      "empty": b"", "array": b"[1, 2, 3]\n"}[p]
+                      "empty": b"", "array": b"[1, 2, 3]\n", "trailing": text + b"\n xyz {{{ ]\n"}[p]
             elif kind != "none":
                 raise core.MachineryError("unknown corruption kind %r" % kind)
         data = hdr + b"".join(evs)
